@@ -1009,7 +1009,7 @@ func callBuiltin(caller *frame, callpos token.Pos, fn *ssa.Builtin, args []value
 		return copy(args[0].([]value), src.([]value))
 
 	case "close": // close(chan T)
-		close(args[0].(chan value))
+		chanClose(args[0])
 		return nil
 
 	case "delete": // delete(map[K]value, K)
@@ -1060,6 +1060,8 @@ func callBuiltin(caller *frame, callpos token.Pos, fn *ssa.Builtin, args []value
 			return x.len()
 		case chan value:
 			return len(x)
+		case *ichan:
+			return len(x.buf)
 		default:
 			panic(fmt.Sprintf("len: illegal operand: %T", x))
 		}
@@ -1074,6 +1076,8 @@ func callBuiltin(caller *frame, callpos token.Pos, fn *ssa.Builtin, args []value
 			return cap(x)
 		case chan value:
 			return cap(x)
+		case *ichan:
+			return x.cap
 		default:
 			panic(fmt.Sprintf("cap: illegal operand: %T", x))
 		}
